@@ -839,6 +839,19 @@ LArr.reshape = lambda self, *shape, **k: reshape(self, shape[0] if len(shape) ==
 FUNCTIONS[np.mean] = reduce_opaque("mean")
 FUNCTIONS[np.sum] = reduce_opaque("sum")
 FUNCTIONS[np.median] = reduce_opaque("median")
+def clip(a, a_min=None, a_max=None, out=None, **kw):
+    """element-wise saturation of a lazy array (bounds: scalars or arrays that broadcast)"""
+    if out is not None:
+        raise Unsupported("np.clip with out= on a lazy array")
+    r = a
+    if a_min is not None:
+        r = np.maximum(r, a_min)
+    if a_max is not None:
+        r = np.minimum(r, a_max)
+    return r
+
+
+FUNCTIONS[np.clip] = clip
 FUNCTIONS[np.tile] = tile
 FUNCTIONS[np.reshape] = reshape
 
